@@ -47,6 +47,27 @@ Proof.
   cbn [length] in Ep. destruct comp; vm_compute in Ep; lia.
 Qed.
 
+(* ---------- the client against a constant answer ---------- *)
+
+Lemma const_200 budget b :
+  issue_retryable budget (const_script (resp 200 b)) = (HStatus 200 b, 1%N).
+Proof.
+  rewrite (retry_transparent budget _ 0%N); [reflexivity|unfold max_attempts; lia|intros j Hj; lia|reflexivity].
+Qed.
+
+Lemma const_final budget st b :
+  ((500 <=? st) && (st <? 600))%N = false ->
+  issue_retryable budget (const_script (resp st b)) = (HStatus st b, 1%N).
+Proof.
+  intros Hst. rewrite (retry_transparent budget _ 0%N); [reflexivity|unfold max_attempts; lia|intros j Hj; lia|].
+  unfold retry_at. cbn. exact Hst.
+Qed.
+
+Lemma const_500 budget b :
+  issue_retryable budget (const_script (resp 500 b)) = (HStatus 0 [], max_attempts budget).
+Proof. rewrite retry_exhausted; [reflexivity|]. intros j _. reflexivity. Qed.
+
+
 Section Transport.
   Variable H : bytes -> id.
   Variable zcomp : bytes -> bytes.
@@ -118,26 +139,6 @@ Section Transport.
       rewrite Hs; [reflexivity|]. destruct (ch_storage c); [discriminate|discriminate].
     - rewrite Hd. reflexivity.
   Qed.
-
-  (* ---------- the client against a constant answer ---------- *)
-
-  Lemma const_200 budget b :
-    issue_retryable budget (const_script (resp 200 b)) = (HStatus 200 b, 1%N).
-  Proof.
-    rewrite (retry_transparent budget _ 0%N); [reflexivity|unfold max_attempts; lia|intros j Hj; lia|reflexivity].
-  Qed.
-
-  Lemma const_final budget st b :
-    ((500 <=? st) && (st <? 600))%N = false ->
-    issue_retryable budget (const_script (resp st b)) = (HStatus st b, 1%N).
-  Proof.
-    intros Hst. rewrite (retry_transparent budget _ 0%N); [reflexivity|unfold max_attempts; lia|intros j Hj; lia|].
-    unfold retry_at. cbn. exact Hst.
-  Qed.
-
-  Lemma const_500 budget b :
-    issue_retryable budget (const_script (resp 500 b)) = (HStatus 0 [], max_attempts budget).
-  Proof. rewrite retry_exhausted; [reflexivity|]. intros j _. reflexivity. Qed.
 
   (* ---------- GET ---------- *)
 
